@@ -43,7 +43,8 @@ CLAIMS["C19"] = {
 CLAIMS["C12"] = {
     "text": "Decides that no parsed class member is silently dropped: on every path of every parser function to a successful return, "
             "each operand/atom/set/node value produced by a parsing call is used (MUSTUSE, path-sensitive must-use over MIR with "
-            "reference aliasing). A dropped operand is exactly the /[a&b]/v defect class.",
+            "reference aliasing). A dropped operand is exactly the /[a&b]/v defect class. Also: string alternatives are sorted longest first "
+            "(STRSORT) and a class set is complemented only after its string alternatives were checked (NEGSTR).",
     "note": COMMON_NOTE + "Not decided: the interval algebra of CodePointSet (add/remove/intersect/inverted) and the v+i complement rule, which are value-level.",
     "technique": "MIR path-sensitive must-use dataflow over parsed-fragment types",
 }
@@ -100,7 +101,9 @@ CLAIMS["C06"] = {
 CLAIMS["C14"] = {
     "text": "Decides, in the utf16 configuration (never compiled by the baseline), that Utf16Input and Ucs2Input element/position twins step "
             "identically on all paths including lone surrogates and both ends (SIBPOS), that Ucs2Input never pairs surrogates, and that the "
-            "configuration's explicit panic sites are triaged (PANICS).",
+            "configuration's explicit panic sites are triaged (PANICS); no byte-level IR node is constructed under utf16 (UTF16BYTES), the "
+            "code-point lowering is direction-aware (LBSEQ), match-time folding honours the unicode flag (ASCIIFOLD clause), and the iterator "
+            "plumbing holds in this configuration (PLUMB).",
     "note": COMMON_NOTE + "Not decided: offset translation and agreement of results with the UTF-8 entry points (value-level).",
     "technique": "symbolic path summaries of sibling step functions under --features utf16",
 }
